@@ -151,10 +151,23 @@ pub fn run(case: &Term) -> Term {
     if kind == "cmd" {
         let argv: Vec<Value> = case.nth(1).strs().iter().map(|x| Value::from(x.as_str())).collect();
         let r = interp.eval_value(&Value::from(Value::from(argv).as_str()));
-        return match r {
+        let out = match r {
             Ok(v) => tag("Ok", vec![ts(v.as_str())]),
             Err(e) => tag("Err", vec![ts(e.value().as_str())]),
         };
+        // the same command with its integer and list arguments passed as computed data (an integer
+        // or list representation with no string yet) must give the same outcome
+        if let Some(t) = typed_call(&case.nth(1).strs(), 1) {
+            let (mut interp2, _) = harness_interp(0);
+            let out2 = match interp2.eval(&t) {
+                Ok(v) => tag("Ok", vec![ts(v.as_str())]),
+                Err(e) => tag("Err", vec![ts(e.value().as_str())]),
+            };
+            if out2 != out {
+                return tag("TYPED-ARGUMENTS-DIFFER", vec![out, ts(&t), out2]);
+            }
+        }
+        return out;
     }
     if let Some(i) = case.nth(1).as_list().get(0) {
         let _ = interp.set_scalar("v", Value::from(i.as_str()));
@@ -165,5 +178,18 @@ pub fn run(case: &Term) -> Term {
         Ok(v) => tag("Ok", vec![ts(v.as_str())]),
         Err(e) => tag("Err", vec![ts(e.value().as_str())]),
     };
+    if let Some(t) = typed_call(&case.nth(2).strs(), 2) {
+        let (mut interp2, _) = harness_interp(0);
+        if let Some(i) = case.nth(1).as_list().get(0) {
+            let _ = interp2.set_scalar("v", Value::from(i.as_str()));
+        }
+        let out2 = match interp2.eval(&t) {
+            Ok(v) => tag("Ok", vec![ts(v.as_str())]),
+            Err(e) => tag("Err", vec![ts(e.value().as_str())]),
+        };
+        if out2 != out || obs_var(&interp2, "v") != obs_var(&interp, "v") {
+            return tag("TYPED-ARGUMENTS-DIFFER", vec![out, ts(&t), out2]);
+        }
+    }
     tl(vec![out, obs_var(&interp, "v")])
 }
